@@ -46,6 +46,31 @@ def ty_sql(rnd, t: str) -> str:
     return {"f": "float", "b": "boolean", "d": "date", "z": "timestamp_ntz"}[t]
 
 
+def cast_sql(rnd, t: str) -> str:
+    if t == "i":
+        return rnd.choice(["1::int", "cast(1 as integer)", "2::bigint"])
+    if t[0] == "n":
+        p, s = t[1:].split(".")
+        return f"1::number({p},{s})"
+    if t[0] == "t":
+        n = int(t[1:])
+        return (f"'ab'::varchar({n})" if rnd.random() < 0.7 else f"cast('ab' as varchar({n}))") if n != DEFAULT_LEN else rnd.choice(["'ab'::varchar", "'ab'::string", "cast('ab' as text)"])
+    return {"f": "1.5::float", "b": "true", "d": "'2020-01-01'::date", "z": "'2020-01-01 00:00:00'::timestamp_ntz"}[t]
+
+
+def ctas_casts(rnd, cols) -> str:
+    """the query of a CTAS whose columns are sized casts: plain, parenthesised, or a set operation of such selects
+    (extract_text_length records the lengths of the casts; a CTE-wrapped query would hide them: C09/length-lost-on-ctas)"""
+    first = "select " + ", ".join(f"{cast_sql(rnd, t)} as {NAME[c]}" for c, t in cols)
+    other = "select " + ", ".join(f"{cast_sql(rnd, t)}" + (f" as {NAME[c]}" if rnd.random() < 0.5 else "") for c, t in cols)
+    form = rnd.choice(["plain", "paren", "union all", "union", "intersect", "except", "union all"])
+    if form == "plain":
+        return first
+    if form == "paren":
+        return f"({first})"
+    return f"{first} {form} {other}"
+
+
 def key_str(k) -> str:
     return ".".join(str(x) for x in k)
 
@@ -65,6 +90,15 @@ class Gen:
     def __init__(self, rnd):
         self.rnd = rnd
         self.shadow: dict = {}   # key -> (is_view, [col ids])  — rough, only to bias choices
+        self.home = {d: 21 for d in DBS}   # current schema of the connection of each database (changed by USE SCHEMA steps)
+        self.commented: dict = {}          # key -> sequence number of its latest COMMENT (observed again after every no-op'd statement)
+
+    def fq(self, k):
+        return fq(self.rnd, k, self.home[k[0]])
+
+    def noise_touch(self, d):
+        recent = sorted(self.commented, key=lambda k: self.commented[k])[-3:]   # the three most recently commented keys
+        return sorted(set(recent) | {(k[0], self.home[k[0]], k[2]) for k in recent} | {(d, self.home[d], k[2]) for k in recent})
 
     def pick_key(self, live=None, view=None):
         r = self.rnd
@@ -85,16 +119,34 @@ class Gen:
         names = r.sample(list(COLS), n)
         return [(c, r.choice(TYPES)) for c in names]
 
-    def op(self) -> dict:
+    def op(self, force=None) -> dict:
         r = self.rnd
-        kind = r.choices(["ct", "cs", "cl", "cv", "ac", "dc", "rc", "rt", "sc", "dt", "dv"], [18, 7, 6, 7, 9, 6, 8, 7, 12, 12, 4])[0]
+        kind = force or r.choices(["ct", "cs", "cl", "cv", "ac", "dc", "rc", "rt", "sc", "dt", "dv", "nop", "use"], [18, 7, 6, 7, 9, 6, 8, 7, 12, 12, 4, 12, 4])[0]
+        if kind == "use":    # USE SCHEMA: later one-part names of that connection refer to the new schema; no metadata effect
+            d = r.choice(list(DBS))
+            sc = r.choice(list(SCHEMAS))
+            self.home[d] = sc
+            return {"op": "nop", "sql": f"use schema {NAME[sc] if r.random() < 0.5 else NAME[d] + '.' + NAME[sc]}", "db": d, "touch": self.noise_touch(d)}
+        if kind == "nop":    # statements fakesnow turns into its success no-op
+            d = r.choice(list(DBS))
+            live = [k for k, (v, _) in self.shadow.items() if not v and k[0] == d]
+            t = self.fq(r.choice(sorted(live))) if live and r.random() < 0.8 else r.choice(list(OBJS.values()))
+            self.nvar = getattr(self, "nvar", 0) + 1
+            sql = r.choice([f"set v{self.nvar % 3} = {self.nvar}", f"alter table {t} set tag tg{self.nvar % 2} = 'x'", f"alter table {t} modify column A set tag tg1 = 'y'",
+                            f"create tag tg{self.nvar}", f"alter table {t} cluster by (A)", f"alter table {t} alter A comment 'col comment'"])
+            return {"op": "nop", "sql": sql, "db": d, "touch": self.noise_touch(d)}
         if kind == "ct":
             k = self.pick_key(live=False) if r.random() < 0.75 else self.pick_key()
             cols = self.new_cols(r.randint(1, 4))
             comment = r.randint(1, 9) if r.random() < 0.45 else None
             rep = r.random() < 0.3
-            sql = (f"create {'or replace ' if rep else ''}table {fq(r, k)} (" + ", ".join(f"{NAME[c]} {ty_sql(r, t)}" for c, t in cols) + ")"
-                   + (f" comment = 'c{comment}'" if comment else ""))
+            if comment is None and r.random() < 0.35:
+                sql = f"create {'or replace ' if rep else ''}table {self.fq(k)} as " + ctas_casts(r, cols)
+            else:
+                sql = (f"create {'or replace ' if rep else ''}table {self.fq(k)} (" + ", ".join(f"{NAME[c]} {ty_sql(r, t)}" for c, t in cols) + ")"
+                       + (f" comment = 'c{comment}'" if comment else ""))
+            if comment:
+                self.commented[k] = len(self.commented) + max(self.commented.values(), default=0) + 1
             self.shadow[k] = (False, [c for c, _ in cols])
             return {"op": f"ct,{key_str(k)},{'/'.join(f'{c}:{t}' for c, t in cols)},{comment or '-'},{int(rep)}", "sql": sql, "db": k[0], "touch": [k]}
         if kind in ("cs", "cl", "cv"):
@@ -106,23 +158,23 @@ class Gen:
             sel = r.sample(scols, r.randint(1, len(scols))) if r.random() < 0.9 else [r.choice(list(COLS))]
             self.shadow[k] = (kind == "cv", list(sel) if kind != "cl" else list(scols))
             if kind == "cl":
-                return {"op": f"cl,{key_str(k)},{key_str(src)},{int(rep)}", "sql": f"create {'or replace ' if rep else ''}table {fq(r, k)} clone {fq(r, src)}", "db": k[0], "touch": [k]}
+                return {"op": f"cl,{key_str(k)},{key_str(src)},{int(rep)}", "sql": f"create {'or replace ' if rep else ''}table {self.fq(k)} clone {self.fq(src)}", "db": k[0], "touch": [k]}
             what = "table" if kind == "cs" else "view"
             return {"op": f"{kind},{key_str(k)},{key_str(src)},{'/'.join(map(str, sel))},{int(rep)}",
-                    "sql": f"create {'or replace ' if rep else ''}{what} {fq(r, k)} as select {', '.join(NAME[c] for c in sel)} from {fq(r, src)}", "db": k[0], "touch": [k]}
+                    "sql": f"create {'or replace ' if rep else ''}{what} {self.fq(k)} as select {', '.join(NAME[c] for c in sel)} from {self.fq(src)}", "db": k[0], "touch": [k]}
         if kind == "ac":
             k = self.pick_key(live=True, view=False)
             c, t = r.choice(list(COLS)), r.choice(TYPES)
             if k in self.shadow and c not in self.shadow[k][1]:
                 self.shadow[k][1].append(c)
-            return {"op": f"ac,{key_str(k)},{c}:{t}", "sql": f"alter table {fq(r, k)} add column {NAME[c]} {ty_sql(r, t)}", "db": k[0], "touch": [k]}
+            return {"op": f"ac,{key_str(k)},{c}:{t}", "sql": f"alter table {self.fq(k)} add column {NAME[c]} {ty_sql(r, t)}", "db": k[0], "touch": [k]}
         if kind == "dc":
             k = self.pick_key(live=True, view=False)
             cols = self.shadow.get(k, (False, []))[1]
             c = r.choice(cols) if cols and r.random() < 0.85 else r.choice(list(COLS))
             if c in cols and len(cols) > 1:
                 cols.remove(c)
-            return {"op": f"dc,{key_str(k)},{c}", "sql": f"alter table {fq(r, k)} drop column {NAME[c]}", "db": k[0], "touch": [k]}
+            return {"op": f"dc,{key_str(k)},{c}", "sql": f"alter table {self.fq(k)} drop column {NAME[c]}", "db": k[0], "touch": [k]}
         if kind == "rc":
             k = self.pick_key(live=True, view=False)
             cols = self.shadow.get(k, (False, []))[1]
@@ -130,36 +182,35 @@ class Gen:
             b = r.choice(list(COLS))
             if a in cols and b not in cols:
                 cols[cols.index(a)] = b
-            return {"op": f"rc,{key_str(k)},{a},{b}", "sql": f"alter table {fq(r, k)} rename column {NAME[a]} to {NAME[b]}", "db": k[0], "touch": [k]}
+            return {"op": f"rc,{key_str(k)},{a},{b}", "sql": f"alter table {self.fq(k)} rename column {NAME[a]} to {NAME[b]}", "db": k[0], "touch": [k]}
         if kind == "rt":
             k = self.pick_key(live=True, view=False)
             n = r.choice(list(OBJS))
             nk = (k[0], k[1], n)
             if k in self.shadow and nk not in self.shadow:
                 self.shadow[nk] = self.shadow.pop(k)
-            return {"op": f"rt,{key_str(k)},{n}", "sql": f"alter table {fq(r, k)} rename to {NAME[n]}", "db": k[0], "touch": [k, nk]}
+            return {"op": f"rt,{key_str(k)},{n}", "sql": f"alter table {self.fq(k)} rename to {NAME[n]}", "db": k[0], "touch": [k, nk]}
         if kind == "sc":
             k = self.pick_key(live=True, view=False) if r.random() < 0.93 else self.pick_key()
             c = r.randint(1, 9)
-            sql = f"comment on table {fq(r, k)} is 'c{c}'" if r.random() < 0.5 else f"alter table {fq(r, k)} set comment = 'c{c}'"
+            sql = f"comment on table {self.fq(k)} is 'c{c}'" if r.random() < 0.5 else f"alter table {self.fq(k)} set comment = 'c{c}'"
+            self.commented[k] = len(self.commented) + max(self.commented.values(), default=0) + 1
             return {"op": f"sc,{key_str(k)},{c}", "sql": sql, "db": k[0], "touch": [k]}
         if kind == "dt":
             k = self.pick_key(live=True, view=False)
             self.shadow.pop(k, None)
-            return {"op": f"dt,{key_str(k)}", "sql": f"drop table {fq(r, k)}", "db": k[0], "touch": [k]}
+            return {"op": f"dt,{key_str(k)}", "sql": f"drop table {self.fq(k)}", "db": k[0], "touch": [k]}
         k = self.pick_key(live=True, view=True)
         if self.shadow.get(k, (False,))[0]:
             self.shadow.pop(k, None)
-        return {"op": f"dv,{key_str(k)}", "sql": f"drop view {fq(r, k)}", "db": k[0], "touch": [k]}
+        return {"op": f"dv,{key_str(k)}", "sql": f"drop view {self.fq(k)}", "db": k[0], "touch": [k]}
 
 
 def gen_history(rnd, length: int) -> list[dict]:
     g = Gen(rnd)
     ops = []
     while len(ops) < 3:   # a few tables to work on
-        o = g.op()
-        if o["op"].startswith("ct,"):
-            ops.append(o)
+        ops.append(g.op(force="ct"))
     return ops + [g.op() for _ in range(length)]
 
 
@@ -299,6 +350,28 @@ def real_history(ops: list[dict]) -> list[dict]:
                     cur = conns[d].cursor()
                     cur.execute(f"show tables in database {NAME[d]}")
                     obs[f"show_db:{d}"] = sorted(f"{x[3]}.{x[4]}.{x[1]}" for x in cur.fetchall())
+                # every spelling of the SHOW scopes (keyword optional, quoted names), issued from the connection of the OTHER database
+                # (qualified scopes) or of the own database (bare schema name)
+                spell = {}
+                for d in DBS:
+                    other = conns[[x for x in DBS if x != d][0]]
+                    D = NAME[d]
+                    for form in (f"show schemas in {D}", f"show schemas in database {D}", f'show schemas in "{D}"', f'show terse schemas in database "{D}"'):
+                        cur = other.cursor()
+                        cur.execute(form)
+                        spell[form] = sorted(f"{x[3]}.{x[1]}" for x in cur.fetchall() if str(x[1]).lower() != "information_schema")
+                    for sc in SCHEMAS:
+                        S = NAME[sc]
+                        for form in (f"show tables in {D}.{S}", f'show tables in "{D}"."{S}"', f"show terse tables in schema {D}.{S}", f"show objects in {D}.{S}",
+                                     f'show objects in schema "{D}".{S}', f"show terse objects in {D}.{S}"):
+                            cur = other.cursor()
+                            cur.execute(form)
+                            spell[form] = sorted(f"{x[3]}.{x[4]}.{x[1]}:{'v' if x[2] == 'VIEW' else 't'}" for x in cur.fetchall())
+                        for form in (f"show tables in {S}", f"show objects in schema {S}"):
+                            cur = conns[d].cursor()
+                            cur.execute(form)
+                            spell[f"[from {D}] " + form] = sorted(f"{x[3]}.{x[4]}.{x[1]}:{'v' if x[2] == 'VIEW' else 't'}" for x in cur.fetchall())
+                obs["show_spellings"] = spell
                 cur = conns[11].cursor()
                 cur.execute("show tables")
                 obs["show_account"] = sorted(f"{x[3]}.{x[4]}.{x[1]}" for x in cur.fetchall())
@@ -445,6 +518,22 @@ def _check_history(chk, ops, real, reply) -> None:
                 if r[f"show_db:{d}"] != want:
                     chk.violation(f"SHOW TABLES IN DATABASE {NAME[d]} lists {r[f'show_db:{d}']}, live tables are {want}", {**case, "step": i}, broken="C09_listing (database scope)")
                     return
+            for form, got in r.get("show_spellings", {}).items():
+                f = form.split("] ")[-1]
+                home = form[6:9] if form.startswith("[from ") else None
+                toks = f.replace('"', "").split()
+                scope = toks[-1]
+                if " schemas " in f" {f} ":
+                    want_sp = [f"{scope}.S1", f"{scope}.S2"]
+                else:
+                    D, S = scope.split(".") if "." in scope else (home, scope)
+                    tables_only = "tables" in toks
+                    want_sp = sorted(f"{D}.{S}.{NAME[int(k.split('.')[2])]}:{model[k]['kind']}" for k in allkeys
+                                     if k.startswith(f"{ID[D]}.{ID[S]}.") and (model[k]["kind"] == "t" or not tables_only))
+                if got != want_sp:
+                    chk.violation(f"`{f}`" + (f" issued from a connection in {home}" if home else " issued from a connection of the other database")
+                                  + f" lists {got}, the live catalog has {want_sp}", {**case, "step": i}, broken="C09_listing (SHOW scope spellings)")
+                    return
             want = sorted(".".join(NAME[int(x)] for x in k.split(".")) for k in allkeys if model[k]["kind"] == "t")
             if r["show_account"] != want:
                 extra = [x for x in r["show_account"] if x not in want]
@@ -478,7 +567,7 @@ def _check_cross(chk, real) -> None:
 
 def _histories(chk) -> list:
     rnd = random.Random(chk.seed)
-    n = 70 if chk.tier == "quick" else 300
+    n = 48 if chk.tier == "quick" else 300
     hs = corpus()
     for _ in range(n):
         hs.append(gen_history(rnd, rnd.randint(8, 30)))
